@@ -227,7 +227,77 @@ def bounded(chk):
 def run(chk):
     p_config(chk)
     p_unicode(chk)
+    p_splitname_assembly(chk)
     bounded(chk)
     chk.assumptions += [
-        "the contract of splitname (canonical form, idempotence, spelling invariance) is decided on the enumerated domain only (bounded stand-in); the configuration and Unicode premises are decided exactly",
+        "the contract of splitname (canonical form, idempotence, spelling invariance) is decided on the enumerated domain only (bounded stand-in); the configuration and Unicode premises are decided exactly; the assembly of the result (namespace number of the site, full = local name + ':' + partial, default / main namespace without a prefix) is proved for all titles on every bundled site table, with _strip_edges and re.sub under arbitrary-result contracts",
     ]
+
+
+# ----------------------------------------------------------------------------- splitname: result assembly for ALL titles, on every bundled site table
+NSH = "mwlib/core/nshandling.py"
+
+
+def p_splitname_assembly(chk):
+    """NsHandler.splitname executed symbolically (title = any string) against each bundled site's real namespace table,
+    with _find_namespace and maybe_capitalize inlined.  _strip_edges and re.sub(' +', ' ', .) return arbitrary strings
+    (assumed contracts: their own properties - canonical spelling - are the subject of the bounded contract), so what is
+    proved is the ASSEMBLY of the result for every title and every outcome of the namespace lookup:
+      never raises; the reported number is a namespace of the site; full == local name of that namespace + ':' + partial
+      (no colon for the main namespace); without a namespace prefix the number is the default namespace, or 0 after a
+      leading colon; the partial is the (mark-stripped) remainder with at most its first letter changed."""
+    import z3
+    from pyvc import source
+    from pyvc.interp import Explorer
+    from pyvc.values import PObj, SStr, ClassRef, Model, z3_of
+    mod = source.module(NSH)
+    cls = ClassRef(mod.defs["NsHandler"], mod)
+    for lang, si in sites():
+        for dns in (0, 10):
+            if str(dns) not in si["namespaces"] or (dns != 0 and lang not in ("en", "de")):
+                continue
+            ex = Explorer()
+            fn = ex.function(NSH, "NsHandler.splitname")
+            for f in ("NsHandler._find_namespace", "NsHandler.maybe_capitalize"):
+                ex.inline.add(f"{NSH}:{f}")
+            calls = {}
+
+            def strip_edges_contract(I, s, calls=calls):
+                calls["strips"] = calls.get("strips", 0) + 1
+                return I.fresh_str("stripped")
+            ex.contracts[f"{NSH}:_strip_edges"] = strip_edges_contract
+            ex.models["re.sub"] = Model("re.sub(' +', ' ', .)", lambda I, pat, repl, s: I.fresh_str("collapsed"))
+
+            def pre_find(I, args, kwargs, calls=calls):
+                calls["looked_up"] = True
+            ex.call_pre[f"{NSH}:NsHandler._find_namespace"] = pre_find
+
+            def harness(I, si=si, dns=dns, ex=ex, fn=fn, calls=calls):
+                calls.clear()
+                t = I.fresh("title", z3.StringSort())
+                I.inputs["title"] = t
+                me = PObj(cls, {"siteinfo": si, "capitalize": si["general"].get("case") == "first-letter"})
+                out = ex.run_function(I, fn, [me, SStr(t)], {"defaultns": dns})
+                I.oblige("no_raise", out.returned)
+                if not out.returned:
+                    return
+                nsnum, partial, full = out.value
+                I.oblige("number_is_a_namespace_of_the_site", isinstance(nsnum, int) and str(nsnum) in si["namespaces"])
+                if not (isinstance(nsnum, int) and str(nsnum) in si["namespaces"]):
+                    return
+                local = si["namespaces"][str(nsnum)]["*"]
+                want = z3.Concat(z3.StringVal(local + ":"), z3_of(partial)) if local else z3_of(partial)
+                I.oblige("full_is_local_name_colon_partial", z3_of(full) == want)
+                if not calls.get("looked_up"):
+                    # no ':' in the cleaned title: default namespace, or main namespace after a leading colon
+                    # (_strip_edges runs once for the whole title and once more for the text behind a leading colon)
+                    leading_colon = calls.get("strips", 0) >= 2
+                    I.oblige("without_a_prefix_the_default_namespace_or_main_after_a_leading_colon", nsnum == (0 if leading_colon else dns))
+            chk.prove(f"nshandling.NsHandler.splitname[{lang},default {dns}]", harness, ex, targets=[fn], replay=replay_assembly)
+
+
+def replay_assembly(model, obligation):
+    n, distinct, fail = bounded_run("quick")
+    if fail:
+        return True, fail["witness"], fail["class"]
+    return False, {"titles": n}, None
